@@ -33,7 +33,7 @@ import (
 //	oconf X | down X acc | close X
 //	lock R X LO ty off len | lockx X ty off len | lockt L V LO F ty off len | locku X off len
 //	rlo L V LO | free X
-//	io R kind X F [park]                      kind r | w | s (SETATTR)
+//	io R kind X F [park] [fail]               kind r | w | s (SETATTR); fail: the file system reports an I/O error
 //	rel R | unlink D N | putfh F
 //
 // optional trailing tokens: ss=<d|z> state ID seqid = current+d (z: zero),
@@ -55,6 +55,8 @@ const (
 	stOK       = 0
 	stStale    = 70
 	stDenied   = 10010
+	stInval    = 22
+	stBadRange = 10042
 	stBadSess  = 10052
 	stStaleCID = 10022
 )
@@ -143,6 +145,7 @@ type request struct {
 	ioState *stateRec
 	line    string
 	ioMust    bool
+	ioFaulted bool // the injected I/O error was delivered to this request
 	ioMustNot string
 	openDir   int
 	openKey   int
@@ -205,6 +208,7 @@ type run struct {
 	stepFailed  bool
 	stepEntered bool // the request of this step ran the server's enter() (lease expiry)
 	focus       string
+	lastLockt   *locktAnswer // the latest LOCKT the server answered
 	sharedLO    bool        // some lock-owner has locked one file through two open states (known-finding shape)
 	withhold    *request    // request that just parked in an open: its open event is withheld
 	inject      *nfsx.Event // withheld open event of the request being released
@@ -304,6 +308,7 @@ type opts struct {
 	deny  int
 	fh    string
 	park  bool
+	fail  bool // the leaf's VirtualRead / VirtualWrite / VirtualSetAttributes reports an I/O error
 	dt    int // delegate type of CLAIM_PREVIOUS (0 none, 1 read, 2 write)
 	extra []string
 }
@@ -315,6 +320,8 @@ func splitOpts(toks []string) ([]string, opts) {
 		switch {
 		case t == "park":
 			o.park = true
+		case t == "fail":
+			o.fail = true
 		case strings.HasPrefix(t, "ss="):
 			o.ss = t[3:]
 		case strings.HasPrefix(t, "os="):
